@@ -32,8 +32,13 @@ EXPLANATION = (
     "netstring writer '<decimal len>:<bytes>,' and split_netstring consume the same grammar; (6) UEB: "
     "pack_extension emits key ':' netstring(value) with decimal ints, keys cannot contain ':', unpack_extension "
     "consumes exactly that, and the keys converted back to int are exactly the keys the encoder stores from its "
-    "integer parameters.  Undecided: base32/base62 arithmetic, rejection of every malformed input, struct's own "
-    "behaviour.")
+    "integer parameters; (7) base32: the alphabet and the last-character table s8 that a2b's precondition consults "
+    "(evaluated from the module initialiser) contain every character b2a can emit for each length class, b2a strips "
+    "'=' and lower-cases, a2b upper-cases and re-pads to a multiple of 8; base62: 62 distinct characters, the radix "
+    "literal of all four functions is the alphabet size, encode/decode use the inverse translation tables; (8) s8 "
+    "contains no character b2a cannot emit (rejection of non-canonical trailing bits) - this clause FAILS on the "
+    "pinned tree (finding).  Undecided: the positional arithmetic of base62 and of Python's base64 module, rejection "
+    "of every other malformed input, struct's own behaviour.")
 TECHNIQUE = ("static analysis: constant folding of struct formats/offsets and table agreement between pack and "
              "unpack sites; straight-line symbolic normal forms of the netstring and UEB parsers")
 
@@ -199,10 +204,15 @@ def spec_tagged_hash(tag, val, truncate_to=None):
 
 
 class MagicEval(ConstEval):
-    """ConstEval cannot instantiate the hasher class; the one call of tagged_hash in _magic() is given its
-    specified meaning instead."""
+    """ConstEval with two work-arounds kept inside this rule file: (a) it cannot instantiate the hasher class, so the
+    one call of tagged_hash in _magic() is given its specified meaning; (b) module-level constants that the module
+    computes with a list comprehension do not fold in Folder.fold, so they can be supplied as overrides."""
+
+    overrides = {}      # (module name, global name) -> value
 
     def _expr(self, e, env):
+        if isinstance(e, ast.Name) and e.id not in env and (self.module.name, e.id) in self.overrides:
+            return self.overrides[(self.module.name, e.id)]
         if isinstance(e, ast.Call) and isinstance(e.func, (ast.Name, ast.Attribute)) and not (
                 isinstance(e.func, ast.Name) and e.func.id in env):
             tgt = self.folder.idx.resolve_expr(self.module, e.func)
@@ -211,12 +221,23 @@ class MagicEval(ConstEval):
                 kwargs = {k.arg: self.expr(k.value, env) for k in e.keywords if k.arg}
                 if tgt.qual == "allmydata.util.hashutil:tagged_hash":
                     return spec_tagged_hash(*args, **kwargs)
-                sub = MagicEval(self.folder, tgt.module)
+                sub = type(self)(self.folder, tgt.module)
                 sub.steps = self.steps
                 v = sub.call(tgt, args, kwargs)
                 self.steps = sub.steps
                 return v
         return ConstEval._expr(self, e, env)
+
+
+def module_value(fo, m, name):
+    """Value of a module-level constant, evaluating pure helper calls / comprehensions of the module initialiser."""
+    vals = m.assigns.get(name)
+    if not vals:
+        raise AnchorVanished("%s.%s" % (m.name, name))
+    try:
+        return MagicEval(fo, m).expr(vals[-1], {})
+    except NotConstant as e:
+        raise AnalysisError("%s.%s cannot be evaluated: %s" % (m.name, name, e))
 
 
 def flatten_bytes(e, defs, F, fn, depth=4):
@@ -444,7 +465,7 @@ def run(ctx: Context):
                       "saturate (struct.pack raises otherwise and the share cannot be created)" % (src(hw, a), mx))
             r.require(isinstance(vals[2], ast.Constant) and vals[2].value == 0, hw, hw.loc(pc),
                       "a new container is written with lease count %s" % src(hw, vals[2]))
-        sf = idx.cls(SF)
+        idx.cls(SF)
         hdr_targets = {}
         # readers of the whole header
         for mname, use in (("__init__", "schema_from_version"), ("get_leases", "range")):
@@ -901,7 +922,6 @@ def run(ctx: Context):
                   "unpack_extension consumes that grammar; int keys == keys stored from the encoder's integer parameters",
                   expected=4) as r:
         pk = idx.func("uri:pack_extension")
-        dparam = first_positional_params(pk)[0]
         fors = [st for st in pk.node.body if isinstance(st, ast.For)]
         if len(fors) != 1:
             raise AnchorVanished("pack_extension: single for loop")
@@ -1018,6 +1038,119 @@ def run(ctx: Context):
                   "from its integer parameters: %s (a missing key comes back as bytes, an extra one makes int() fail or is "
                   "never converted)" % (sorted(intkeys), sorted(stored_int)))
 
+    # ---- 7. base32 / base62 tables ------------------------------------------------
+    with ctx.rule("C38.7", "R5", "base32: the decoder's acceptance tables (alphabet, last-character table s8) are exactly what "
+                  "the encoder can emit; case and padding are undone symmetrically; base62: alphabet, radix literals and "
+                  "translation tables agree", expected=9) as r:
+        import base64 as _b64
+        b32 = idx.module("allmydata.util.base32")
+        enc = idx.func("util.base32:b2a")
+        decf = idx.func("util.base32:a2b")
+
+        def emit(b):
+            return _b64.b32encode(b).rstrip(b"=").lower()
+        chars = module_value(F.fo, b32, "chars")
+        emitted = set()
+        for v in range(256):
+            emitted |= set(emit(bytes([v]) * 5))
+        r.site("util.base32:chars")
+        r.require(isinstance(chars, bytes) and set(chars) == emitted and len(chars) == len(emitted) == 32,
+                  "allmydata.util.base32:chars", b32.relpath, "the alphabet a2b accepts is %r ; b2a emits %r" % (
+                      chars, bytes(sorted(emitted))))
+        # s8[len % 8][last char]
+        MagicEval.overrides = {}
+        for nm in ("NUM_QS_TO_NUM_BITS",):
+            if nm in b32.assigns:
+                MagicEval.overrides[(b32.name, nm)] = module_value(F.fo, b32, nm)
+        s8 = module_value(F.fo, b32, "s8")
+        MagicEval.overrides = {}
+        s8_extra = {}
+        r.site("util.base32:s8")
+        want = {k: set() for k in range(8)}
+        for n in range(1, 6):
+            for v in range(256):
+                e_ = emit(b"\x00" * (n - 1) + bytes([v]))
+                want[len(e_) % 8].add(e_[-1])
+        ok = isinstance(s8, tuple) and len(s8) == 8 and all(isinstance(x, tuple) and len(x) == 256 for x in s8)
+        r.require(ok, "allmydata.util.base32:s8", b32.relpath, "s8 is not an 8 x 256 table")
+        if ok:
+            r.count(8 * 256)
+            for k in range(8):
+                got = {c for c in range(256) if s8[k][c]}
+                miss, extra = want[k] - got, got - want[k]
+                r.require(not miss, "allmydata.util.base32:s8", b32.relpath, "encodings of length = %d (mod 8) may end in %r, which "
+                          "a2b's precondition rejects: a2b(b2a(x)) fails" % (k, bytes(sorted(miss))))
+                if extra:
+                    s8_extra[k] = bytes(sorted(extra))
+        cb = idx.func("util.base32:could_be_base32_encoded")
+        pre = [c for c in calls_in_func(decf, "precondition") if c.args and isinstance(c.args[0], ast.Call)
+               and call_tail(c.args[0]) == "could_be_base32_encoded"]
+        r.site(decf, None)
+        dp = first_positional_params(decf)[0]
+        r.require(bool(pre) and all(attr_path(c.args[0].args[0]) == dp for c in pre), decf, decf.loc(),
+                  "a2b no longer checks could_be_base32_encoded(%s) before decoding" % dp)
+        dflt = {a.arg: d for a, d in zip(cb.node.args.args[len(cb.node.args.args) - len(cb.node.args.defaults):], cb.node.args.defaults)}
+        r.require(attr_path(dflt.get("s8")) == "s8" and attr_path(dflt.get("chars")) == "chars", cb, cb.loc(),
+                  "could_be_base32_encoded is not bound to the module tables s8 / chars")
+        sp = first_positional_params(cb)[0]
+        rets = [n.value for n in func_own_nodes(cb) if isinstance(n, ast.Return) and n.value is not None and not isinstance(n.value, ast.Constant)]
+        wantr = norm_src("s8[len(%s) %% 8][%s[-1]] and not tr(%s, identitytranstable, chars)" % (sp, sp, sp))
+        r.require(bool(rets) and all(norm_plain(v) == wantr for v in rets), cb, cb.loc(), "could_be_base32_encoded returns %s ; "
+                  "specified: last character by s8[len %% 8], every character in chars" % [src(cb, v) for v in rets])
+        # case / padding symmetry
+        ep = first_positional_params(enc)[0]
+        erets = [n.value for n in func_own_nodes(enc) if isinstance(n, ast.Return) and n.value is not None]
+        r.site(enc, None)
+        forms = {norm_src('base64.b32encode(%s).rstrip(b"=").lower()' % ep), norm_src('base64.b32encode(%s).lower().rstrip(b"=")' % ep)}
+        r.require(bool(erets) and all(N(enc).norm(v) in forms for v in erets), enc, enc.loc(),
+                  "b2a returns %s ; specified RFC 4648 base32, '=' padding stripped, lower case" % [src(enc, v) for v in erets])
+        loops = [n for n in func_own_nodes(decf) if isinstance(n, ast.While)]
+        pad_ok = len(loops) == 1 and norm_plain(loops[0].test) in (
+            norm_src("(len(%s) * 5) %% 8 != 0" % dp), norm_src("len(%s) %% 8 != 0" % dp)) and len(loops[0].body) == 1 and \
+            isinstance(loops[0].body[0], ast.AugAssign) and isinstance(loops[0].body[0].op, ast.Add) and \
+            attr_path(loops[0].body[0].target) == dp and F.expr(loops[0].body[0].value, decf) == b"="
+        r.require(pad_ok, decf, decf.loc(), "a2b does not re-pad with '=' to a multiple of 8 characters before b32decode")
+        ups = [n for n in func_own_nodes(decf) if isinstance(n, ast.Assign) and attr_path(n.targets[0]) == dp
+               and norm_plain(n.value) == "%s.upper()" % dp]
+        drets = [n.value for n in func_own_nodes(decf) if isinstance(n, ast.Return) and n.value is not None]
+        r.require(bool(ups) and bool(drets) and all(norm_plain(v) == "base64.b32decode(%s)" % dp for v in drets), decf, decf.loc(),
+                  "a2b does not upper-case its input and hand it to base64.b32decode")
+        # base62
+        b62 = idx.module("allmydata.util.base62")
+        c62 = module_value(F.fo, b62, "chars")
+        v62 = module_value(F.fo, b62, "vals")
+        r.site("util.base62:chars/vals")
+        r.require(isinstance(c62, bytes) and len(set(c62)) == len(c62) == 62, "allmydata.util.base62:chars", b62.relpath,
+                  "base62 alphabet has %d distinct characters of %d" % (len(set(c62)), len(c62)))
+        r.require(v62 == bytes(range(len(c62))), "allmydata.util.base62:vals", b62.relpath, "vals is not the digit values 0..%d" % (len(c62) - 1))
+        for nm, a0, a1 in (("c2vtranstable", "chars", "vals"), ("v2ctranstable", "vals", "chars")):
+            e_ = b62.assigns.get(nm, [None])[-1]
+            r.require(isinstance(e_, ast.Call) and call_tail(e_) == "maketrans" and [attr_path(x) for x in e_.args] == [a0, a1],
+                      "allmydata.util.base62:" + nm, b62.relpath, "%s is not maketrans(%s, %s)" % (nm, a0, a1))
+        radix = len(c62)
+        for fname, table in (("b2a_l", "v2ctranstable"), ("a2b_l", "c2vtranstable"),
+                             ("num_octets_that_encode_to_this_many_chars", None), ("num_chars_that_this_many_octets_encode_to", None)):
+            fn = idx.func("util.base62:" + fname)
+            lits = {n.value for n in func_own_nodes(fn) if isinstance(n, ast.Constant) and isinstance(n.value, int)
+                    and not isinstance(n.value, bool) and n.value > 8 and n.value != 256}
+            r.site(fn, None, "radix")
+            r.require(lits == {radix}, fn, fn.loc(), "%s works in radix %s ; the alphabet has %d characters" % (fname, sorted(lits), radix))
+            if table:
+                tr = [c for c in calls_in_func(fn, "translate")]
+                r.require(bool(tr) and all(len(c.args) == 2 and attr_path(c.args[1]) == table for c in tr), fn, fn.loc(),
+                          "%s translates with %s ; specified %s" % (fname, [src(fn, c.args[1]) for c in tr if len(c.args) == 2], table))
+
+
+    with ctx.rule("C38.8", "R5", "base32: a2b's last-character table accepts only characters b2a can emit for that length "
+                  "(non-canonical trailing bits are malformed input and must be rejected, not read as a value)", expected=1) as r:
+        r.site("util.base32:s8")
+        r.count(8 * 256)
+        if s8_extra:
+            r.violation("allmydata.util.base32:s8", b32.relpath, "a2b accepts final characters that b2a never emits: %s.  Such a "
+                        "string has non-zero bits below the last encoded byte; base64.b32decode drops them, so two different "
+                        "strings decode to the same bytes (e.g. a2b(b'ac') == a2b(b'aa') == b'\\x00').  init_s8 asks "
+                        "get_trailing_chars_without_lsbs for 4-(bits%%5) ignored bits; the last quintet of a canonical encoding "
+                        "has 5-(bits%%5) zero bits" % "; ".join("length = %d (mod 8): %r" % (k, v) for k, v in sorted(s8_extra.items())))
 
 # -- small helpers used above ------------------------------------------------------
 def _returns_with(self, fn, local):
